@@ -116,6 +116,14 @@ def _decoder(ev):
     return None
 
 
-CORRUPT = {"ParserTrace.tla": _parser, "LoaderTrace.tla": _loader, "BuilderTrace.tla": _builder, "TablesTrace.tla": _tables,
+def _storagebulk(ev):
+    for i, e in enumerate(ev):
+        if e.get("ev") == "brun" and e.get("st") == "ok" and e.get("lookups"):
+            e["lookups"] = e["lookups"][:-1] + [[e["lookups"][-1][0], e["lookups"][-1][1] + 1]]
+            return i, "the numbers found through the last run of tokens were shifted by one"
+    return None
+
+
+CORRUPT = {"StorageBulkTrace.tla": _storagebulk, "ParserTrace.tla": _parser, "LoaderTrace.tla": _loader, "BuilderTrace.tla": _builder, "TablesTrace.tla": _tables,
            "DisasmTrace.tla": _disasm, "LiftTrace.tla": _lift, "StorageTrace.tla": _storage, "DisCliTrace.tla": _discli,
            "ModuleTrace.tla": _module, "PredTrace.tla": _pred, "DecoderTrace.tla": _decoder}
